@@ -22,7 +22,7 @@ type Profile struct {
 	PBig           float64
 	PUnstable      float64
 	PRestart       float64
-	BigFileBlocks  int // if >0, occasionally build a file this many blocks long (so that removal needs the shrinker)
+	BigFileBlocks  int     // if >0, occasionally build a file this many blocks long (so that removal needs the shrinker)
 	PLimit         float64 // values exactly at / around announced limits (C19)
 }
 
@@ -266,6 +266,11 @@ func (g *seqGen) next() *Op {
 				if r.Chance(g.p.PLimit) {
 					// a write exactly at / around the announced maximum transfer size
 					op.Raw2("wtmax", []int64{0, 0, -1, 1, -4096, 4096}[r.Intn(6)])
+				} else if r.Chance(0.02) {
+					op.Len, op.Cnt = 0, 0 // nothing to write: succeeds and changes nothing
+				} else if rel == "" && op.Len < 60000 && r.Chance(0.04) {
+					// more data bytes than the count says: only count bytes are to be written
+					op.Len += 1 + r.Uint64n(5000)
 				}
 				op.Pat = g.nextPat
 				g.nextPat++
@@ -279,12 +284,20 @@ func (g *seqGen) next() *Op {
 			ok = g.handleRef(op, false, kREG)
 			if ok {
 				o := g.objOfRef(op.H)
-				op.Off, op.Len, _, _ = g.offLen(o)
+				var rel string
+				var y int64
+				op.Off, op.Len, rel, y = g.offLen(o)
+				if rel != "" {
+					// offsets relative to the announced maximum file size / the top of the
+					// 64-bit range: a READ there is a READ beyond the end of the file
+					op.Raw, op.Y = rel, y
+				}
 				if r.Chance(0.3) {
 					op.Len = 1 + r.Uint64n(65536)
 				}
 				if o != nil && r.Chance(0.3) {
 					op.Off = 0
+					op.Raw = ""
 					op.Len = o.Size + 10
 					if op.Len > 1<<20 {
 						op.Len = 1 << 20
@@ -547,6 +560,12 @@ func toIn(op *Op, tbl map[int]string, lim *Limits) *In {
 		in.Data = patData(op.Pat, 0, n)
 	case "read":
 		in.Off, in.Count = op.Off, op.Len
+		switch op.Raw {
+		case "maxfile":
+			in.Off = uint64(int64(lim.MaxFileSize) + op.Y)
+		case "u64":
+			in.Off = uint64(op.Y)
+		}
 	case "setattr":
 		in.How = op.How // guard: 0 none, 1 a ctime the object never had, 2 ctime zero
 		if op.X == 1 {
